@@ -196,3 +196,31 @@ func (c *ECurve) AddScalarBase(pub []byte, il *big.Int) ([]byte, bool) {
 	}
 	return compress(x, y), true
 }
+
+// Decompress returns the affine coordinates of a compressed point.
+func (c *ECurve) Decompress(b []byte) (x, y *big.Int, ok bool) {
+	p, ok := c.decompress(b)
+	if !ok {
+		return nil, nil, false
+	}
+	return p.X, p.Y, true
+}
+
+// SubScalarBase returns serP(K - point(k)); ok is false if the result is the point at infinity.
+func (c *ECurve) SubScalarBase(pub []byte, k *big.Int) ([]byte, bool) {
+	neg := new(big.Int).Sub(c.N, new(big.Int).Mod(k, c.N))
+	if neg.Cmp(c.N) == 0 {
+		return pub, true
+	}
+	return c.AddScalarBase(pub, neg)
+}
+
+// ZeroXPoints returns the compressed encodings of the curve points with x = 0 (two on P-256, none on secp256k1).
+func (c *ECurve) ZeroXPoints() [][]byte {
+	y := new(big.Int).ModSqrt(new(big.Int).Mod(c.B, c.P), c.P)
+	if y == nil {
+		return nil
+	}
+	zero := new(big.Int)
+	return [][]byte{compress(zero, y), compress(zero, new(big.Int).Sub(c.P, y))}
+}
